@@ -9,64 +9,50 @@ namespace ShVerif.C22
 
 /-! ## `split_spec` -/
 
-/-- The property at full strength: for every IFS, positional parameters and word, the fields of
-    `wordFields` are those of POSIX field splitting and quote removal. -/
-def split_spec_statement : Prop :=
-  ∀ (env : Env) (parts : List Part), wordFields env parts = posixFields env parts
-
 private def c (ch : Char) : Sym := ⟨ch, String.utf8EncodeChar ch⟩
 private def colonEnv : Env := ⟨[c ':'], []⟩
 private def dfltEnv (params : List Str) : Env := ⟨[c ' ', c '\t', c '\n'], params⟩
 
-/-- … which the code does not meet: `IFS=:; y=a::b; $y` (bash `<a><><b>`). -/
-theorem split_spec_counterexample : ¬ split_spec_statement := by
-  intro h
-  have := h colonEnv [.exp [c 'a', c ':', c ':', c 'b']]
-  revert this
-  decide
-
-/-- `IFS=:; y=a::b; $y` — model `<a><b>`, spec `<a><><b>`. -/
-theorem counterexample_adjacent_delims :
-    wordFields colonEnv [.exp [c 'a', c ':', c ':', c 'b']] = [[97], [98]] ∧
-    posixFields colonEnv [.exp [c 'a', c ':', c ':', c 'b']] = [[97], [], [98]] := by decide
-/-- `IFS=:; y=:a; $y` — model `<a>`, spec `<><a>`. -/
-theorem counterexample_leading_delim :
-    wordFields colonEnv [.exp [c ':', c 'a']] = [[97]] ∧
-    posixFields colonEnv [.exp [c ':', c 'a']] = [[], [97]] := by decide
-/-- `IFS=:; y=a::; $y` — model `<a>`, spec `<a><>`. -/
-theorem counterexample_trailing_delims :
-    wordFields colonEnv [.exp [c 'a', c ':', c ':']] = [[97]] ∧
-    posixFields colonEnv [.exp [c 'a', c ':', c ':']] = [[97], []] := by decide
-/-- `x=' a'; ""$x` — model `<a>`, spec `<><a>`: the empty `""` is lost. -/
-theorem counterexample_empty_dquotes :
-    wordFields (dfltEnv []) [.dbl [], .exp [c ' ', c 'a']] = [[97]] ∧
-    posixFields (dfltEnv []) [.dbl [], .exp [c ' ', c 'a']] = [[], [97]] := by decide
-/-- `{,x}`: the empty literal left by brace expansion — model `<>`, spec no field. -/
-theorem counterexample_empty_literal :
-    wordFields (dfltEnv []) [.lit []] = [[]] ∧ posixFields (dfltEnv []) [.lit []] = [] := by decide
-
-/-- The splitting theorem on the region the code gets right: for every IFS (unset, empty, white
-    space, non-white-space, mixed, multi-byte), all positional parameters and every `Clean` word —
-    no empty unquoted literal, `$@` alone in its double quotes, an empty `""` only among literals
-    and quotes, and no non-white-space IFS character of an unquoted expansion delimiting an empty
-    field — the fields are exactly those of POSIX field splitting and quote removal. -/
-theorem split_spec_partial (env : Env) (parts : List Part) (hc : Clean env parts) :
+/-- Field splitting and quote removal: for every IFS (unset, empty, white space, non-white-space,
+    mixed, multi-byte), all positional parameters and every word whose parts are `partOk` — `$@`
+    stands alone in its double quotes (the open finding C22-at-in-dquotes, see
+    `at_in_dquotes_statement` below) and double-quoted literal text has no NUL byte — the fields of
+    `wordFields` are exactly those of the specification: POSIX 2.6.5 field splitting (IFS white
+    space runs collapse, every other IFS character delimits a field, empty ones included) with
+    quote removal, unquoted `$@`/`$*` joined by the first IFS character before splitting as bash
+    does.  (Since fe5aeee, d04d00a, 51168a7 no further hypothesis is needed.) -/
+theorem split_spec (env : Env) (parts : List Part) (hok : parts.all partOk = true) :
     wordFields env parts = posixFields env parts :=
-  split_spec_partial' env parts hc
+  split_spec' env parts hok
 
-/-- IFS made of white space only (unset and empty IFS included): no delimiter condition. -/
-theorem split_spec_ws (env : Env) (parts : List Part)
-    (hws : ∀ s ∈ env.ifs, wsRune s.r = true)
-    (hok : parts.all partOk = true)
-    (hq : parts.contains (.dbl []) = true → parts.all plain = true) :
-    wordFields env parts = posixFields env parts :=
-  split_spec_partial env parts ⟨hok, hq, noEmptyDelim_of_ws env.ifs hws _ _⟩
+/-! Pinned: the witnesses of the findings repaired by d04d00a, fe5aeee and 51168a7 now give
+    bash's answer on the model (and, by the tie, on the code). -/
 
+/-- `IFS=:; y=a::b; $y` is `<a><><b>`. -/
+theorem pinned_adjacent_delims :
+    wordFields colonEnv [.exp [c 'a', c ':', c ':', c 'b']] = [[97], [], [98]] := by decide
+/-- `IFS=:; y=:a; $y` is `<><a>`; `y=a::` is `<a><>`. -/
+theorem pinned_leading_trailing_delims :
+    wordFields colonEnv [.exp [c ':', c 'a']] = [[], [97]] ∧
+    wordFields colonEnv [.exp [c 'a', c ':', c ':']] = [[97], []] := by decide
+/-- `IFS=' :'; y='a : b'; $y` is `<a><b>`: white space and one other IFS character are one delimiter. -/
+theorem pinned_mixed_delim :
+    wordFields ⟨[c ' ', c ':'], []⟩ [.exp [c 'a', c ' ', c ':', c ' ', c 'b']] = [[97], [98]] := by decide
+/-- `x=' a'; ""$x` is `<><a>`. -/
+theorem pinned_empty_dquotes :
+    wordFields (dfltEnv []) [.dbl [], .exp [c ' ', c 'a']] = [[], [97]] := by decide
+/-- `{,x}`: the empty literal left by brace expansion makes no field. -/
+theorem pinned_empty_literal : wordFields (dfltEnv []) [.lit []] = [] := by decide
+/-- `set -- x '' y; IFS=:; $@` is `<x><><y>` (the elements are joined by the first IFS character). -/
+theorem pinned_unquoted_at_rejoin :
+    wordFields ⟨[c ':'], [[c 'x'], [], [c 'y']]⟩ [.at] = [[120], [], [121]] := by decide
 
 /-- Quoted text is never split: a word made of literals, single quotes and double quotes (without
-    `$@`) is exactly one field — the concatenation of its quote-removed parts — whatever IFS is
-    and whatever IFS characters the quoted values contain. -/
-theorem quoted_never_split (env : Env) (parts : List Part) (hne : parts ≠ [])
+    `$@`) — not consisting of empty unquoted literals only — is exactly one field, the
+    concatenation of its quote-removed parts, whatever IFS is and whatever IFS characters the
+    quoted values contain. -/
+theorem quoted_never_split (env : Env) (parts : List Part)
+    (hne : ∃ p ∈ parts, p ≠ Part.lit [])
     (hp : parts.all plain = true) (hok : parts.all partOk = true) :
     wordFields env parts = [(parts.map (posixLiteralVal env)).flatten] :=
   plain_one_field env parts hne hp hok
@@ -82,7 +68,13 @@ theorem empty_quoted_kept (env : Env) (parts : List Part) (hne : parts ≠ [])
   have hok : parts.all partOk = true := by
     rw [List.all_eq_true]; intro p hp
     rcases he p hp with h | h | h <;> subst h <;> decide
-  rw [plain_one_field env parts hne hp hok]
+  have hne' : ∃ p ∈ parts, p ≠ Part.lit [] := by
+    cases parts with
+    | nil => exact absurd rfl hne
+    | cons a t =>
+      refine ⟨a, List.mem_cons_self .., ?_⟩
+      rcases he a (List.mem_cons_self ..) with h | h | h <;> subst h <;> decide
+  rw [plain_one_field env parts hne' hp hok]
   have : ∀ (l : List Part), (∀ p ∈ l, p = .sgl [] ∨ p = .dbl [] ∨ p = .dbl [.exp []]) →
       (l.map (posixLiteralVal env)).flatten = [] := by
     intro l hl
@@ -162,9 +154,9 @@ theorem literal_spec_partial (env : Env) (parts : List Part)
     literal env parts = posixLiteral env parts :=
   literal_spec_partial' env parts h
 
-/-! Non-vacuity of `Clean`. -/
-example : Clean ⟨[c ':', c ' '], [[c 'p']]⟩
-    [.lit [120], .exp [c ' ', c 'a', c ' ', c ':', c ' ', c 'b'], .dbl [.at], .sgl []] := by decide
-example : ¬ Clean colonEnv [.exp [c 'a', c ':', c ':', c 'b']] := by decide
+/-! Non-vacuity of the hypothesis of `split_spec`. -/
+example : [Part.lit [120], .exp [c ':', c 'a', c ':', c ':'], .dbl [], .dbl [.at], .sgl [], .at].all partOk = true := by
+  decide
+example : [Part.dbl [.lit [97], .at]].all partOk = false := by decide
 
 end ShVerif.C22
